@@ -2,11 +2,13 @@
   Statrs.Lemmas.IntBisectMono — the trait-default `DiscreteCDF::inverse_cdf`
   (src/distribution/mod.rs:210) and `internal::integral_bisection_search`
   (src/distribution/internal.rs:12) over ℝ for a function that is ONLY assumed non-decreasing
-  (plateaus allowed, including a plateau exactly at the searched level — the case excluded by
-  `Statrs.Lemmas.IntBisect.Adm.noflat`), with the loop fuel as an explicit parameter.
+  (plateaus allowed, including a plateau exactly at the searched level), with the loop fuel as an
+  explicit parameter.
 
   * `search_loop_quantile` / `search_quantile` — theorems about the GENERATED
-    `D.internal.integral_bisection_search(.loop1)`.
+    `D.internal.integral_bisection_search(.loop1)`: the result `k` has `f (k-1) < z ≤ f k`, i.e. it is
+    the smallest `k` with `z ≤ f k`.  (Before the early exit `f(ub) == z` was removed from the Rust
+    source the conclusion had to allow "or `f k = z` exactly", a later point of a plateau at level `z`.)
   * `dloop_reach` — the doubling loop (mirror `Statrs.Lemmas.IntBisect.dloop`) with the extra
     information that the bound it returns is `2` or at most `2K − 2`.
 -/
@@ -22,77 +24,37 @@ def MonoFrom (f : Int → ℝ) (B : Int) : Prop := ∀ a b, B ≤ a → a ≤ b 
 
 variable {f : Int → ℝ} {z : ℝ} {B : Int}
 
-/-- one unfolding of the generated search loop under its invariant (monotonicity only) -/
+theorem MonoFrom.adm (h : MonoFrom f B) : Adm f B := ⟨h⟩
+
+/-- one unfolding of the generated search loop under its invariant (monotonicity only): `ub` is
+    returned only when `lb + 1 = ub` -/
 theorem search_step_mono (h : MonoFrom f B) (fuel : Nat) (lb ub : Int) (hlt : lb < ub) (hB : B ≤ lb)
     (hl : f lb < z) (hu : z ≤ f ub) :
     D.internal.integral_bisection_search.loop1 (fuel + 1) f 2 z ub lb =
-      if (f ub = z ∨ lb + 1 = ub) then LoopR.ret (some ub)
+      if lb + 1 = ub then LoopR.ret (some ub)
       else if z ≤ f (Int.tdiv (lb + ub) 2)
         then D.internal.integral_bisection_search.loop1 fuel f 2 z (Int.tdiv (lb + ub) 2) lb
-        else D.internal.integral_bisection_search.loop1 fuel f 2 z ub (Int.tdiv (lb + ub) 2) := by
-  rw [D.internal.integral_bisection_search.loop1]
-  have hs : sdiv (lb + ub) 2 = Int.tdiv (lb + ub) 2 := by unfold sdiv; rw [if_neg (by norm_num)]
-  obtain ⟨b1, b2⟩ := tdiv_two_bounds (lb + ub)
-  have hm1 : lb ≤ Int.tdiv (lb + ub) 2 := by omega
-  have hm2 : Int.tdiv (lb + ub) 2 ≤ ub := by omega
-  simp only [hs, real_beq]
-  have c1 : ¬ ¬ (f lb ≤ f (Int.tdiv (lb + ub) 2) ∧ f (Int.tdiv (lb + ub) 2) ≤ f ub) :=
-    not_not.mpr ⟨h _ _ hB hm1, h _ _ (hB.trans hm1) hm2⟩
-  rw [if_neg c1, if_neg hl.ne]
-  by_cases he : (f ub = z ∨ lb + 1 = ub)
-  · rw [if_pos he, if_pos he]
-  · rw [if_neg he, if_neg he]
-    by_cases hz : z ≤ f (Int.tdiv (lb + ub) 2)
-    · simp only [if_pos hz]
-    · simp only [if_neg hz]
+        else D.internal.integral_bisection_search.loop1 fuel f 2 z ub (Int.tdiv (lb + ub) 2) :=
+  search_step h.adm fuel lb ub hlt hB hl hu
 
 /-- The generated bisection loop with `fuel > n` iterations available, started on a bracket
-    `f lb < z ≤ f ub` of width `≤ 2^n`, returns some `k ∈ (lb, ub]` with `z ≤ f k` and
-    EITHER `f (k-1) < z` (so `k` is the smallest) OR `f k = z` exactly (the early exit
-    `f(ub) == z`, which can fire in the middle of a plateau at level `z`). -/
+    `f lb < z ≤ f ub` of width `≤ 2^n`, returns the `k ∈ (lb, ub]` with `f (k-1) < z ≤ f k`: the
+    smallest `k` with `z ≤ f k`, also when `f` has a plateau at level `z`. -/
 theorem search_loop_quantile (h : MonoFrom f B) (n : Nat) : ∀ (fuel : Nat) (lb ub : Int), n < fuel → lb < ub →
     ub - lb ≤ 2 ^ n → B ≤ lb → f lb < z → z ≤ f ub →
     ∃ k, D.internal.integral_bisection_search.loop1 fuel f 2 z ub lb = LoopR.ret (some k) ∧
-      lb < k ∧ k ≤ ub ∧ z ≤ f k ∧ (f (k - 1) < z ∨ f k = z) := by
-  induction n with
-  | zero =>
-    intro fuel lb ub hf hlt hw hB hl hu
-    obtain ⟨g, rfl⟩ : ∃ g, fuel = g + 1 := ⟨fuel - 1, by omega⟩
-    have he : (f ub = z ∨ lb + 1 = ub) := Or.inr (by norm_num at hw; omega)
-    refine ⟨ub, by rw [search_step_mono h g lb ub hlt hB hl hu, if_pos he], hlt, le_refl _, hu, Or.inl ?_⟩
-    have : ub - 1 = lb := by norm_num at hw; omega
-    rw [this]; exact hl
-  | succ n ih =>
-    intro fuel lb ub hf hlt hw hB hl hu
-    obtain ⟨g, rfl⟩ : ∃ g, fuel = g + 1 := ⟨fuel - 1, by omega⟩
-    rw [search_step_mono h g lb ub hlt hB hl hu]
-    by_cases he : (f ub = z ∨ lb + 1 = ub)
-    · refine ⟨ub, by rw [if_pos he], hlt, le_refl _, hu, ?_⟩
-      rcases he with he | he
-      · exact Or.inr he
-      · have : ub - 1 = lb := by omega
-        rw [this]; exact Or.inl hl
-    · rw [if_neg he]
-      have hne : lb + 1 ≠ ub := fun e => he (Or.inr e)
-      obtain ⟨b1, b2⟩ := tdiv_two_bounds (lb + ub)
-      have hp : (2:Int) ^ (n + 1) = 2 * 2 ^ n := by rw [pow_succ]; ring
-      by_cases hz : z ≤ f (Int.tdiv (lb + ub) 2)
-      · rw [if_pos hz]
-        obtain ⟨k, e, k1, k2, k3, k4⟩ := ih g lb (Int.tdiv (lb + ub) 2) (by omega) (by omega) (by omega) hB hl hz
-        exact ⟨k, e, k1, by omega, k3, k4⟩
-      · rw [if_neg hz]
-        obtain ⟨k, e, k1, k2, k3, k4⟩ := ih g (Int.tdiv (lb + ub) 2) ub (by omega) (by omega) (by omega)
-          (by omega) (not_le.mp hz) hu
-        exact ⟨k, e, by omega, k2, k3, k4⟩
+      lb < k ∧ k ≤ ub ∧ z ≤ f k ∧ f (k - 1) < z :=
+  search_loop_spec h.adm n
 
 /-- `integral_bisection_search f z lb ub` (generated; its loop runs with `loopFuel` iterations) for a
-    non-decreasing `f` with `f lb < z ≤ f ub` and a bracket of width `≤ 2^n`, `n < loopFuel`. -/
+    non-decreasing `f` with `f lb < z ≤ f ub` and a bracket of width `≤ 2^n`, `n < loopFuel`:
+    the result is the smallest `k ∈ (lb, ub]` with `z ≤ f k`. -/
 theorem search_quantile (h : MonoFrom f B) (n : Nat) (hn : n < loopFuel) (lb ub : Int) (hB : B ≤ lb) (hlt : lb < ub)
     (hl : f lb < z) (hu : z ≤ f ub) (hw : ub - lb ≤ 2 ^ n) :
     ∃ k, D.internal.integral_bisection_search (α := ℝ) f z lb ub = some k ∧ lb < k ∧ k ≤ ub ∧ z ≤ f k ∧
-      (f (k - 1) < z ∨ f k = z) := by
+      f (k - 1) < z ∧ ∀ j, B ≤ j → j < k → f j < z := by
   obtain ⟨k, e, k1, k2, k3, k4⟩ := search_loop_quantile h n loopFuel lb ub hn hlt hw hB hl hu
-  refine ⟨k, ?_, k1, k2, k3, k4⟩
+  refine ⟨k, ?_, k1, k2, k3, k4, fun j hj hjk => lt_of_le_of_lt (h j (k - 1) hj (by omega)) k4⟩
   unfold D.internal.integral_bisection_search
   have c : ¬ ¬ (f lb ≤ z ∧ z ≤ f ub) := not_not.mpr ⟨hl.le, hu⟩
   rw [if_neg c]
